@@ -4,6 +4,7 @@ package main
 
 import (
 	"fmt"
+	"go/token"
 	"go/types"
 	"strconv"
 	"strings"
@@ -806,6 +807,38 @@ func (c *SpecCtx) call(n *Node) SV {
 		x := c.eval(n.Args[0])
 		e.declFields()
 		return SV{T: app("str_join", app("fields_arr", x.T), "0", app("fields_len", x.T), e.strLit(" ")), Sort: "Str", Ty: types.Typ[types.String]}
+	case "strContains":
+		a, b := c.eval(n.Args[0]), c.eval(n.Args[1])
+		e.declText()
+		return boolSV(app("str_contains", a.T, b.T))
+	case "strTrim":
+		a := c.eval(n.Args[0])
+		e.declText()
+		return SV{T: app("str_trim", a.T), Sort: "Str", Ty: types.Typ[types.String]}
+	case "reMatch":
+		a, b := c.eval(n.Args[0]), c.eval(n.Args[1])
+		e.declText()
+		return boolSV(app("re_match", a.T, b.T))
+	case "strJoin":
+		// strJoin(s, sep): strings.Join of a string slice in the current state
+		a, b := c.eval(n.Args[0]), c.eval(n.Args[1])
+		e.declFields()
+		h := e.arrHeap(types.Typ[types.String])
+		return SV{T: app("str_join", sel(c.cur.H(h), app("s_arr", a.T)), app("s_off", a.T), app("s_len", a.T), b.T), Sort: "Str", Ty: types.Typ[types.String]}
+	case "fmtv":
+		// fmtv(b): fmt.Sprintf("%v", b) of a byte slice - an uninterpreted function of its bytes
+		x := c.eval(n.Args[0])
+		return SV{T: e.fmtBytes(c.cur, x.T), Sort: "Str", Ty: types.Typ[types.String]}
+	case "formatFloat":
+		// formatFloat(v): strconv.FormatFloat(v, 'f', -1, 64), uninterpreted
+		x := c.eval(n.Args[0])
+		e.declStrconv()
+		return SV{T: app("fmt_float", x.T, "102", "(- 1)", "64"), Sort: "Str", Ty: types.Typ[types.String]}
+	case "parseFloat":
+		// parseFloat(s): the value strconv.ParseFloat(s, 64) returns, uninterpreted
+		x := c.eval(n.Args[0])
+		e.declStrconv()
+		return SV{T: app("parse_float", x.T, "64"), Sort: "F64", Ty: types.Typ[types.Float64]}
 	case "errIs":
 		// errIs(err, target): the uninterpreted errors.Is relation
 		a, b := c.eval(n.Args[0]), c.eval(n.Args[1])
@@ -1145,6 +1178,27 @@ func seqSuffix(es string) string {
 
 var assignedGlobals map[*ssa.Global]bool
 
+// loadedGlobal: v is the value of a package-level variable read directly (*g), possibly through conversions.
+func loadedGlobal(v ssa.Value) *ssa.Global {
+	for {
+		switch x := v.(type) {
+		case *ssa.UnOp:
+			if x.Op == token.MUL {
+				if g, ok := x.X.(*ssa.Global); ok {
+					return g
+				}
+			}
+			return nil
+		case *ssa.ChangeType:
+			v = x.X
+		case *ssa.Global:
+			return nil
+		default:
+			return nil
+		}
+	}
+}
+
 // globalAssigned: some function other than a package initialiser stores to the global.
 func globalAssigned(prog *ssa.Program, g *ssa.Global) bool {
 	if assignedGlobals == nil {
@@ -1158,9 +1212,32 @@ func globalAssigned(prog *ssa.Program, g *ssa.Global) bool {
 				if fn.Name() != "init" {
 					for _, b := range fn.Blocks {
 						for _, in := range b.Instrs {
-							if st, ok := in.(*ssa.Store); ok {
-								if gg, ok := st.Addr.(*ssa.Global); ok {
+							// a store to the variable, or a write through its value: a field or element of the
+							// object it points to, an entry of the map it holds (update or delete)
+							switch in := in.(type) {
+							case *ssa.Store:
+								if gg, ok := in.Addr.(*ssa.Global); ok {
 									assignedGlobals[gg] = true
+								}
+								switch a := in.Addr.(type) {
+								case *ssa.FieldAddr:
+									if gg := loadedGlobal(a.X); gg != nil {
+										assignedGlobals[gg] = true
+									}
+								case *ssa.IndexAddr:
+									if gg := loadedGlobal(a.X); gg != nil {
+										assignedGlobals[gg] = true
+									}
+								}
+							case *ssa.MapUpdate:
+								if gg := loadedGlobal(in.Map); gg != nil {
+									assignedGlobals[gg] = true
+								}
+							case *ssa.Call:
+								if b, ok := in.Call.Value.(*ssa.Builtin); ok && (b.Name() == "delete" || b.Name() == "clear") && len(in.Call.Args) > 0 {
+									if gg := loadedGlobal(in.Call.Args[0]); gg != nil {
+										assignedGlobals[gg] = true
+									}
 								}
 							}
 						}
